@@ -1,19 +1,28 @@
 chk('C18', 'exploration',
-    'bounded-exhaustive exploration of utils.shortest_int and devices.ADC on the real code against brute-force references: '
-    'shortest_int on EVERY data vector of length 1..8 over {0,1,2,3} (87 380 vectors = every tie pattern up to that size; thorough: '
-    'length <= 9, 349 524 vectors), every vector of length <= 6 (thorough 8) over the scale mix {0,0.5,1e-3,7} and over the tiny-scale '
-    'alphabet {0,1,2,3}e-11, int64 vectors of length <= 6 (7), each with every percentage in {10,25,50,75,90,99.99} (622 560 / 3 276 768 '
-    'calls), plus seeded 10^4 and 2^17-sample Gaussian / uniform / 16-level records; oracle: two data values lo <= hi that are order '
-    'statistics exactly floor(p*len/100) apart (lag computed with fractions and in floats, either accepted) whose width equals the '
-    'minimum over ALL pairs that far apart, no exception (lag 0 included). ADC over the full product of 5 signal families (Gaussian, '
-    'uniform, sine, 16-level quantised, Gaussian with +-10 sigma outliers) x lengths {2,3,100,9999,10000,20000,2^17} x n 1..12 x otype '
-    '{n,v} x {ndarray, container, container+noise} (2 520 cases, thorough 3 seeds): length, <= 2^n levels, integer codes in [0,2^n-1], '
-    'values in [V_min,V_max], samples inside move <= half a step, samples outside get the end codes, for SOME minimal 99.99 % interval '
-    'of the brute-force reference and either the mid-tread or the mid-rise reading of "quantisation step"',
-    'the signal/data quantifier is covered at the listed alphabets and lengths only (vectors longer than 9 only as seeded records); '
-    'constant records (V_max == V_min, zero step) and the resampling argument fs are outside the statement and not run; width '
-    'comparisons are made in float arithmetic (monotone rounding: a reported non-minimum is a real non-minimum, two windows whose real '
-    'widths differ by less than one rounding error are treated as tied); ADC tolerances are 32 eps max(|V_min|,|V_max|,range)',
-    'full-space enumeration batched by vector prefix, differential oracle = brute force over all windows (python floats for short '
-    'vectors, numpy for long records), failing vectors re-registered as single replayable cases; mutation-checked (13 mutants)',
+    'bounded-exhaustive exploration of the real utils.shortest_int and devices.ADC against brute-force references (quick / '
+    'thorough). shortest_int: EVERY vector of length 1..8 / 9 over {0,1,2,3} (87 380 / 349 524), of length <= 6 / 8 over 4 more float '
+    'alphabets (scale mix, 1e-11, 1e6 with near-ties, 1+k*eps) and <= 6 / 7 over int64, int32, uint16, full-scale int16, complex128 / 64 '
+    'with zero imaginary part, x {10,25,50,75,90,99.99}; 16 edge percentages (1e-9 .. 99.9999999) x every '
+    'vector of length <= 7 / 8 over {0,1,2,3} and <= 6 / 7 in int64 (1 288 744 / 6 728 232 calls); 13 data x 10 percentage spellings x '
+    'every vector of length <= 4 / 5 (238 680 / 957 528); the lag clause on every (p, length), p a multiple of 1/2 / 1/4 in (0,100), '
+    'length 2..200 / 400, on 3 probe vectors (118 803 / 477 603); 979 / 2 199 seeded records of 3..2^17 samples. Oracle: no exception, data '
+    'values lo <= hi that are order statistics exactly floor(p*len/100) apart (lag 0 included) of minimum width over ALL such pairs. '
+    'ADC: 5 signal families x 10 lengths (2..2^17) x 24 dtype / value forms (float64/32/16, int8..64, uint8/16, scales 1e-12..1e6, '
+    'offsets, complex containers) x n 1..12 x otype {n,v} x 8 input forms (ndarray, container, 3 noise forms, 3 chained '
+    'conversions): 38 640 / 229 800 fresh-input cases (quick: 7 base dtype x 3 base input forms with every n, all 10 lengths for '
+    'float64 and 6 otherwise, the rest as a one-deviation lattice on <= 6 lengths and <= 6 n; thorough: full product, new x new cells at 6 n), 10 call '
+    'spellings on a sub-product (4 560 / 28 500), 2 750 / 15 050 sweeps converting ONE input object (writable / write-protected) with all '
+    '24 (n, otype), argument bytes compared with a snapshot after every call. Clauses: length, <= 2^n levels, integer codes in [0,2^n-1], '
+    'values in [V_min,V_max], inside samples move <= half a step, outside samples get the end codes, for SOME minimal 99.99 % '
+    'interval, mid-tread or mid-rise; plus the kernel call-history part (4 calls x 3 grids)',
+    'covered at the listed alphabets, lengths and forms only: vectors longer than 9 only as lag-scan probe vectors and VERIF_SEED-seeded '
+    'records; the quick tier thins lengths and bit depths outside the base block. Outside the statement and not run: constant records (zero '
+    'step), the resampling argument fs, records with a non-zero imaginary part (complex containers only with imaginary part exactly +-0, '
+    'judged on the real part), bool / NaN / inf / 2-D data, float or bool n; an invalid otype is not asserted (no error clause). Widths are '
+    'compared in the float arithmetic the input dtype implies (monotone rounding: a reported non-minimum is real, windows closer than one '
+    'rounding error count as tied); ADC tolerances are 32 eps max(|V_min|,|V_max|,range) with eps of that arithmetic, so on a large offset '
+    'the volt and half-step clauses bind only up to the rounding of the offset; numpy 1.26 value-based scalar promotion is assumed',
+    'full-space enumeration batched by vector prefix / form pair / length, differential oracle = brute force over all windows (python floats '
+    'for short vectors, numpy for long records), failing inputs re-registered as single replayable cases; mutation-checked (M1-M13, H1-H7, '
+    'W1-W3 in notes/C18.md)',
     'DESIGN.md 5/C18')
